@@ -32,7 +32,6 @@ import (
 	"github.com/lindb/lindb/flow"
 	v1 "github.com/lindb/lindb/index/v1"
 	"github.com/lindb/lindb/kv"
-	"github.com/lindb/lindb/kv/version"
 	"github.com/lindb/lindb/metrics"
 	"github.com/lindb/lindb/models"
 	"github.com/lindb/lindb/pkg/encoding"
@@ -280,10 +279,14 @@ func (ii *invertedIndex) put(key, seriesID uint32) {
 }
 
 func (ii *invertedIndex) getSeriesIDs(key uint32) (*roaring.Bitmap, error) {
+	result := roaring.New()
+	// NOTE: read memory before taking the snapshot, a flush commits the new file before it drops the immutable store,
+	// reading in the other order misses the entries of a flush which completes in between.
+	ii.findSeriesIDsByKeyFromMem(key, result)
+
 	snapshot := ii.family.GetSnapshot()
 	defer snapshot.Close()
 
-	result := roaring.New()
 	seriesIDs := roaring.New()
 	if err := snapshot.Load(key, func(value []byte) error {
 		if _, err := bitmapUnmarshal(seriesIDs, value); err != nil {
@@ -295,15 +298,20 @@ func (ii *invertedIndex) getSeriesIDs(key uint32) (*roaring.Bitmap, error) {
 	}); err != nil {
 		return nil, err
 	}
-	ii.findSeriesIDsByKeyFromMem(key, result)
 	return result, nil
 }
 
 func (ii *invertedIndex) findSeriesIDsByKeys(keys *roaring.Bitmap) (*roaring.Bitmap, error) {
+	result := roaring.New()
+	// NOTE: read memory before taking the snapshot(see getSeriesIDs)
+	memIt := keys.Iterator()
+	for memIt.HasNext() {
+		ii.findSeriesIDsByKeyFromMem(memIt.Next(), result)
+	}
+
 	snapshot := ii.family.GetSnapshot()
 	defer snapshot.Close()
 
-	result := roaring.New()
 	seriesIDs := roaring.New()
 	it := keys.Iterator()
 	for it.HasNext() {
@@ -318,7 +326,6 @@ func (ii *invertedIndex) findSeriesIDsByKeys(keys *roaring.Bitmap) (*roaring.Bit
 		}); err != nil {
 			return nil, err
 		}
-		ii.findSeriesIDsByKeyFromMem(key, result)
 	}
 	return result, nil
 }
@@ -423,14 +430,14 @@ func (fi *forwardIndex) put(tagKeyID, tagValueID, seriesID uint32) {
 }
 
 func (fi *forwardIndex) findSeriesIDsForTag(tagKeyID tag.KeyID) (*roaring.Bitmap, error) {
-	snapshot := fi.family.GetSnapshot()
-	defer snapshot.Close()
-
 	result := roaring.New()
-	// read data from mem
+	// read data from mem(before taking the snapshot, else the entries of a flush which completes in between are missed)
 	fi.loadSeriesIDsInMem(tagKeyID, func(tagIndex *imap.IntMap[uint32]) {
 		result.Or(tagIndex.Keys())
 	})
+
+	snapshot := fi.family.GetSnapshot()
+	defer snapshot.Close()
 
 	// read data from kv store
 	// try to get tag key id from kv store
@@ -455,9 +462,6 @@ func (fi *forwardIndex) findSeriesIDsForTag(tagKeyID tag.KeyID) (*roaring.Bitmap
 
 // GetGroupingContext returns the context of group by
 func (fi *forwardIndex) GetGroupingContext(ctx *flow.ShardExecuteContext) error {
-	snapshot := fi.family.GetSnapshot()
-	defer snapshot.Close()
-
 	scannerMap := make(map[tag.KeyID][]flow.GroupingScanner)
 	tagKeyIDs := ctx.StorageExecuteCtx.GroupByTagKeyIDs
 	seriesIDs := ctx.SeriesIDsAfterFiltering
@@ -469,7 +473,7 @@ func (fi *forwardIndex) GetGroupingContext(ctx *flow.ShardExecuteContext) error 
 	}()
 	for _, tagKeyID := range tagKeyIDs {
 		// get grouping scanners by tag key
-		scanners, err := fi.getGroupingScanners(tagKeyID, seriesIDs, snapshot)
+		scanners, err := fi.getGroupingScanners(tagKeyID, seriesIDs)
 		if err != nil {
 			return err
 		}
@@ -493,7 +497,6 @@ func (fi *forwardIndex) GetGroupingContext(ctx *flow.ShardExecuteContext) error 
 func (fi *forwardIndex) getGroupingScanners(
 	tagKeyID tag.KeyID,
 	seriesIDs *roaring.Bitmap,
-	snapshot version.Snapshot,
 ) ([]flow.GroupingScanner, error) {
 	var result []flow.GroupingScanner
 	// read data from mem
@@ -506,6 +509,10 @@ func (fi *forwardIndex) getGroupingScanners(
 		}
 		result = append(result, &memGroupingScanner{forward: tagIndex, withLock: fi.withLock})
 	})
+
+	// NOTE: take the snapshot after reading memory, else the entries of a flush which completes in between are missed
+	snapshot := fi.family.GetSnapshot()
+	defer snapshot.Close()
 
 	// read data from kv store
 	// try to get tag key id from kv store
